@@ -1033,6 +1033,9 @@ func runSeq(p Profile, seed uint64, cas int) *SeqRes {
 		if p.DeadProbe && rng.Intn(12) == 0 {
 			s.deadProbe()
 		}
+		if (p.DeadProbe || p.WalkEvery > 0) && rng.Intn(30) == 0 {
+			s.switchScript()
+		}
 		if (p.DeadProbe || p.DeleteAll || p.FsckEvery > 0 || p.WalkEvery > 0) && rng.Intn(40) == 0 {
 			s.dirMoveScript()
 		}
@@ -1546,6 +1549,74 @@ func (s *Sess) dirMoveScript() {
 
 // deadProbe (C08) presents one dead handle to every procedure and handle
 // position; the reference expects NFS3ERR_STALE and no effect.
+// switchScript: the "atomic switch" idiom - an object that has been used
+// through its handle (READLINK / READ / READDIR) is replaced by renaming a new
+// object over its name; the old handle must be stale at once in the very
+// procedures that answered it before, the name must lead to the new object.
+func (s *Sess) switchScript() {
+	s.nextUid++
+	n := s.nextUid
+	d := s.srv.Root
+	if o := s.pickObj(KDir); o != nil && s.rng.Intn(2) == 0 {
+		d = o.FH
+	}
+	cur, next := fmt.Sprintf("cur%d", n), fmt.Sprintf("next%d", n)
+	switch s.rng.Intn(3) {
+	case 0:
+		a := s.exec(&Op{K: OpSymlink, H: d, Name: cur, Target: fmt.Sprintf("release-%d", n)})
+		if a.Stat != stOK {
+			return
+		}
+		s.exec(&Op{K: OpReadlink, H: a.FH})
+		s.exec(&Op{K: OpReadlink, H: a.FH})
+		if b := s.exec(&Op{K: OpSymlink, H: d, Name: next, Target: fmt.Sprintf("release-%d", n+1)}); b.Stat != stOK {
+			return
+		}
+		s.exec(&Op{K: OpRename, H: d, Name: next, H2: d, Name2: cur})
+		s.exec(&Op{K: OpReadlink, H: a.FH})
+		s.exec(&Op{K: OpGetattr, H: a.FH})
+		if l := s.exec(&Op{K: OpLookup, H: d, Name: cur}); l.Stat == stOK {
+			s.exec(&Op{K: OpReadlink, H: l.FH})
+		}
+	case 1:
+		a := s.exec(&Op{K: OpCreate, H: d, Name: cur})
+		if a.Stat != stOK {
+			return
+		}
+		s.nextUid++
+		s.exec(&Op{K: OpWrite, H: a.FH, Off: 0, Count: 5000, DataLen: 5000, Uid: s.nextUid, Stable: 0})
+		s.exec(&Op{K: OpRead, H: a.FH, Off: 0, Count: 8192})
+		b := s.exec(&Op{K: OpCreate, H: d, Name: next})
+		if b.Stat != stOK {
+			return
+		}
+		s.nextUid++
+		s.exec(&Op{K: OpWrite, H: b.FH, Off: 0, Count: 300, DataLen: 300, Uid: s.nextUid, Stable: 0})
+		s.exec(&Op{K: OpRename, H: d, Name: next, H2: d, Name2: cur})
+		s.exec(&Op{K: OpRead, H: a.FH, Off: 0, Count: 8192})
+		s.exec(&Op{K: OpCommit, H: a.FH})
+		s.exec(&Op{K: OpRead, H: b.FH, Off: 0, Count: 8192})
+	case 2:
+		a := s.exec(&Op{K: OpMkdir, H: d, Name: cur})
+		if a.Stat != stOK {
+			return
+		}
+		s.exec(&Op{K: OpReaddirplus, H: a.FH, Count: 4096, Dircount: 4096})
+		s.exec(&Op{K: OpLookup, H: a.FH, Name: "."})
+		b := s.exec(&Op{K: OpMkdir, H: d, Name: next})
+		if b.Stat != stOK {
+			return
+		}
+		s.exec(&Op{K: OpRename, H: d, Name: next, H2: d, Name2: cur})
+		s.exec(&Op{K: OpReaddirplus, H: a.FH, Count: 4096, Dircount: 4096})
+		s.exec(&Op{K: OpReaddir, H: a.FH, Count: 4096})
+		s.exec(&Op{K: OpLookup, H: a.FH, Name: ".."})
+		s.exec(&Op{K: OpCreate, H: a.FH, Name: "into-the-dead-directory"})
+		s.exec(&Op{K: OpLookup, H: b.FH, Name: ".."})
+	}
+	s.res.Stats.Add("switch-script")
+}
+
 func (s *Sess) deadProbe() {
 	dead := s.m.DeadFHs()
 	if len(dead) == 0 {
